@@ -113,11 +113,19 @@ var c08Statements = []string{
 	"a := r\"x{{1 + 2}}y\"",
 	"a := 'it\"s'",
 	"a := \"q\\\\\"",
+	"x := foo([1, 2, 3, 4, 5])[0]",
+	"x := foo({\"a\" : 1, \"b\" : 2, \"c\" : 3}).b",
+	"mutex m {\n    a := 1\n}\nb := 2",
+	"sink s\n    kindmatch [\"a\"],\n    {\n        a\n    }\nb := 2",
+	"a := [[1, 2, 3, 4, 5], 6]",
+	"for i in range(1, 10 % 3) {\n    a := i % 2\n}",
 }
 
 // c08KnownStatement: statement templates that hit listed findings (index -> finding)
 func c08KnownStatement(i int) {
 	zz.Known("C08-raw-string-printed-as-interpolating", "C08.same-tree-after-round-trip", i == 28)
+	zz.Known("C08-access-after-multiline-container-argument", "C08.same-tree-after-round-trip", i == 31)
+	zz.Known("C08-blank-lines-grow-after-mutex-or-sink-block", "C08.printing-is-idempotent", i == 33 || i == 34)
 }
 
 // VerifC08Statements: every statement kind, optionally nested in a block of another statement kind.
@@ -132,6 +140,32 @@ func VerifC08Statements() {
 		src = "func g() {\n" + src + "\n}"
 	case 3:
 		src = "try {\n" + src + "\n} finally {\n" + src + "\n}"
+	}
+	c08RoundTrip(src)
+}
+
+// VerifC08Parameters: function parameter defaults and call arguments with a symbolic operator or a symbolic string
+// (alphabet with the printf meta character %) survive printing.
+func VerifC08Parameters() {
+	var part string
+	if zz.Bool("stringDefault") {
+		b := zz.Bytes("str", 2)
+		zz.Assume(zz.OneOf(b[0], "a%d \\"))
+		zz.Assume(zz.OneOf(b[1], "a%d \\"))
+		part = "\"" + string(b) + "\""
+	} else {
+		part = "10 " + c08BinOps[zz.Choice("op", len(c08BinOps))] + " 3"
+	}
+	var src string
+	switch zz.Choice("place", 4) {
+	case 0:
+		src = "func f(a, b=" + part + ") {\n    return a\n}"
+	case 1:
+		src = "x := f(1, " + part + ")"
+	case 2:
+		src = "f := func (b=" + part + ") {\n}"
+	case 3:
+		src = "x := {\"k\" : " + part + ", \"l\" : [" + part + "]}"
 	}
 	c08RoundTrip(src)
 }
